@@ -383,9 +383,10 @@ Definition clone_shape (fuel : nat) (st : cst) (si name : N) : res (cst * N) :=
         let cont := bone_container f4 db in
         (* destBoneCont->boneRefs.Clear() *)
         bind (match cont with Some (ci, _, _, _) => set_bone_ptrs f4 ci [] | None => Ok f4 end) (fun f5 =>
-        (* the node hierarchy below the source root *)
-        bind (match root, sroot with
-              | Some (ri, _), Some (sri, _) =>
+        (* the node hierarchy below the source root; within the same file (srcNif == this) every node
+           already is where it belongs: no walk *)
+        bind (match src, root, sroot with
+              | Some _, Some (ri, _), Some (sri, _) =>
                 match vget (blocks (fh (src_of src (mkCst f5 (cnext st3))))) sri with
                 | Some srb =>
                   (fix go (ks : list N) (st : cst) : res cst :=
@@ -402,7 +403,7 @@ Definition clone_shape (fuel : nat) (st : cst) (si name : N) : res (cst * N) :=
                      end) (node_children (src_of src (mkCst f5 (cnext st3))) srb) (mkCst f5 (cnext st3))
                 | None => Fault
                 end
-              | _, _ => Ok (mkCst f5 (cnext st3))
+              | _, _, _ => Ok (mkCst f5 (cnext st3))
               end) (fun st6 =>
         (* add bones to the container *)
         bind (match cont with
